@@ -1686,7 +1686,9 @@ pub fn run(ctx: &mut Ctx) {
                 for sym in syms {
                     n += 1;
                     let hash = STRONG_HASHES[n % 6];
-                    let s2k = if var == 2 { gen_s2k(ctx, 2 + kind % 2, hash) } else { gen_s2k(ctx, kind, if n % 7 == 0 { 2 } else { hash }) };
+                    // (weak digests MD5 / SHA-1 / RIPEMD-160 in the S2K are forbidden for v6 packets only: v4 keys carrying
+                    //  them, with usage 253 as well, are accepted from the wire and must unlock)
+                    let s2k = if var == 2 { gen_s2k(ctx, 2 + kind % 2, if n % 2 == 0 { WEAK_HASHES[(n / 2) % 3] } else { hash }) } else { gen_s2k(ctx, kind, if n % 7 == 0 { 2 } else { hash }) };
                     let mode = 1 + (n % 3) as u8;
                     let iv = gen_iv(ctx, if var == 2 { own_nonce_size(mode) } else { own_block_size(sym) });
                     let hp = HP { var, sym, mode: if var == 2 { mode } else { 0 }, s2k, iv };
